@@ -35,7 +35,7 @@ REQUIRED_REACH = ["cache_object.py:FileCache.__getitem__", "cache_object.py:File
 REQUIRED_COUNTERS = {"C18.evictions": 10, "C18.hits": 10, "C18.enlargements": 3, "C18.parallel_requests": 3,
                      "C18.histories": 50}
 TIMEOUT = {"quick": 900, "thorough": 3600}
-SYMBOLS = ["gA", "gB", "gAC", "gAx", "rA", "purge", "reopen", "tB", "aA", "foreign"]
+SYMBOLS = ["gA", "gB", "gAC", "gAx", "rA", "purge", "reopen", "tB", "aA", "foreign", "gBv"]
 LIMITS = {"roomy": 10 ** 6, "tight": 9500, "exact": 8000, "tiny": 4500}
 NSHARDS = {"quick": 16, "thorough": 16}
 MAXLEN = {"quick": 4, "thorough": 5}
@@ -55,6 +55,9 @@ def apply(lab, sym):
         return lab.op_get(["A"])
     if sym == "gB":
         return lab.op_get(["B"])
+    if sym == "gBv":
+        # B requested through a validation directive whose function accepts: a hit like any other
+        return lab.op_get(["B"], directive="validate=ok:")
     if sym == "gAC":
         return lab.op_get(["A", "C"])
     if sym == "gAx":
@@ -73,6 +76,8 @@ def apply(lab, sym):
         return lab.op_foreign()
     if sym.startswith("g:"):
         return lab.op_get(sym[2:].split(","))
+    if sym.startswith("gv:"):
+        return lab.op_get(sym[3:].split(","), directive="validate=ok:")
     if sym.startswith("r:"):
         return lab.op_remove(sym[2:])
     if sym.startswith("t:"):
@@ -129,7 +134,7 @@ def random_history(rng):
         if r < 0.7:
             k = int(rng.choice([1, 1, 2, 3]))
             ks = list(rng.choice(keys, size=k, replace=False))
-            seq.append("g:" + ",".join(ks))
+            seq.append(("gv:" if rng.uniform() < 0.25 else "g:") + ",".join(ks))
         elif r < 0.78:
             seq.append("r:" + str(rng.choice(keys)))
         elif r < 0.8:
